@@ -211,6 +211,34 @@ def benign_variants(model, modname, fn_line):
             if isinstance(n, ast.Name) and n.id in ren:
                 n.id = ren[n.id]
         out.append((f"rename nested helper functions {sorted(nested)[:4]}", ast.unparse(tree)))
+    # 4. alpha-rename local variables (assignment / loop / with / except / comprehension targets) of every top-level
+    #    function and its closures; parameters, attributes and keyword names are left alone
+    tree = copy.deepcopy(mod.tree)
+    renamed = 0
+    for top in [n for n in tree.body if isinstance(n, ast.FunctionDef)] + [m_ for c in tree.body if isinstance(c, ast.ClassDef) for m_ in c.body if isinstance(m_, ast.FunctionDef)]:
+        params = set()
+        for n in ast.walk(top):
+            if isinstance(n, (ast.FunctionDef, ast.Lambda)):
+                a = n.args
+                params |= {x.arg for x in a.posonlyargs + a.args + a.kwonlyargs} | ({a.vararg.arg} if a.vararg else set()) | ({a.kwarg.arg} if a.kwarg else set())
+        fnames = {n.name for n in ast.walk(top) if isinstance(n, (ast.FunctionDef, ast.ClassDef))}
+        globs = {nm for n in ast.walk(top) if isinstance(n, ast.Global) for nm in n.names}
+        stored = {n.id for n in ast.walk(top) if isinstance(n, ast.Name) and isinstance(n.ctx, (ast.Store, ast.Del))}
+        stored |= {h.name for h in ast.walk(top) if isinstance(h, ast.ExceptHandler) and h.name}
+        locs = stored - params - fnames - globs
+        if not locs:
+            continue
+        ren = {nm: nm + "_v" for nm in locs}
+        for n in ast.walk(top):
+            if isinstance(n, ast.Name) and n.id in ren:
+                n.id = ren[n.id]
+                renamed += 1
+            elif isinstance(n, ast.ExceptHandler) and n.name in ren:
+                n.name = ren[n.name]
+            elif isinstance(n, ast.Nonlocal):
+                n.names = [ren.get(x, x) for x in n.names]
+    if renamed:
+        out.append((f"alpha-rename {renamed} occurrences of local variables (suffix _v)", ast.unparse(tree)))
     return out
 
 
